@@ -86,6 +86,31 @@ def run_case(c):
                         return {"ok": False, "evaluations": n, "outcome": real, "expected": sp,
                                 "case": {"prop": "C04", "kind": "sign", "inputs": {"p": {"t": "str", "v": p_}}}}
         return {"ok": True, "evaluations": n}
+    if kind == "threads":
+        # a pure function gives the same answer from any thread at any time: several threads sign different texts concurrently with a
+        # very short switch interval (bounded and probabilistic: it can only find shared scratch state, never prove its absence)
+        import sys
+        import threading
+        texts = [bytes([t]) .hex() * (3 + t) for t in range(8)]
+        want = [spec.sign_spec(p_) for p_ in texts]
+        bad = []
+        old = sys.getswitchinterval()
+        sys.setswitchinterval(1e-6)
+
+        def work(t):
+            for _ in range(i.get("rounds", 4000)):
+                if sign_packet_with_crc_key(texts[t]) != want[t]:
+                    bad.append(t)
+                    return
+        try:
+            th = [threading.Thread(target=work, args=(t,)) for t in range(8)]
+            for x in th:
+                x.start()
+            for x in th:
+                x.join()
+        finally:
+            sys.setswitchinterval(old)
+        return {"ok": not bad, "evaluations": 8 * i.get("rounds", 4000), "detail": f"wrong signature returned in thread(s) {sorted(set(bad))} while other threads were signing"}
     if kind == "wrapped":
         # a hex text wrapped in white space is not a hex-encoded byte string: it is refused like any other non-hex text
         n = 0
